@@ -443,6 +443,7 @@ func runC05(t *testing.T, spec RunSpec) *RunResult {
 		if cfg.Concurrent {
 			w.Serial = false
 			w.MaxConc = 4
+			w.JoinProposals = true
 		}
 		trace(spec, res.Cfg, w)
 		d := NewDeployment(w, cfg.Deploy)
